@@ -87,6 +87,11 @@ func calleesOfSite(p *Prog, cs *callSite) []*ssa.Function {
 		}
 	}
 	if len(out) == 0 {
+		p.CG()
+		// a call of the function's own function-typed parameter: what the callers pass
+		out = append(out, p.ParamCallees[cs.In]...)
+	}
+	if len(out) == 0 {
 		if n := p.CG().Nodes[cs.Fn]; n != nil {
 			for _, e := range n.Out {
 				if e.Site == cs.In {
